@@ -26,14 +26,14 @@ theorem runStep_good (prog : Program) (fuel : Nat) (pipe : String) (d : StepDef)
   | ok kind =>
     simp only []
     have hk := stepOk_kind d kind hd hinit
-    have hc : ∀ c, Keeps Good (fun s' =>
+    have hc : ∀ c : CofCfg, Keeps Good (fun s' =>
         runGroups fuel prog (s'.stack.head?.getD pipe) c.groups c.success c.failure s') :=
       fun c s' => hG _ _ _ _ s'
     have hW : ∀ k : String, k = "call" ∨ k = "jump" ∨ k = "switch" → k ∉ ["runErrors", "p"] := by
       intro k hk; rcases hk with rfl | rfl | rfl <;> decide
     have plain : ∀ r : Res, (∀ c, r ≠ .call c) →
         Good s (runStepWith d (fun s => (s, r))
-          (fun c s' => runGroups fuel prog (s'.stack.head?.getD pipe) c.groups c.success c.failure s') fuel s).1 :=
+          (fun (c : CofCfg) s' => runGroups fuel prog (s'.stack.head?.getD pipe) c.groups c.success c.failure s') fuel s).1 :=
       fun r hr => runStepWith_keeps good d _ _ fuel (saveError_good d) (fun s => good.refl s) hc
         (fun s s1 c h => by injection h with _ h2; exact absurd h2 (hr c))
         (setIn_good d hd) (unsetIn_good d hd) s
